@@ -115,6 +115,36 @@ def dag_order_runs(ctx, rng):
             ctx.coverage["distinct_nontrivial"] += 1
 
 
+def failed_and_ready_together(ctx, rng):
+    """single-operator containers, a pipeline r -> {b1, b2}, b2 -> c: b1 is killed for memory in the very tick b2 completes, so the next round finds a FAILED
+    operator (to retry) and a PENDING one (newly ready) in the same pipeline.  Which comes first must not depend on the interpreter's hash seed: the same run
+    under PYTHONHASHSEED 0, 2 and 7 (the three orders a two-element set of enum members takes)"""
+    for i in range(2 if ctx.quick() else 8):
+        tps = rng.choice([1, 2])
+        algo = ["priority", "overbook"][i % 2]
+        pipes = [{"prio": rng.choice([2, 3]), "ops": [{"parents": [], "ticks": 1, "mem": 0.5}, {"parents": [0], "ticks": 3, "mem": 150 if algo == "overbook" else 40},
+                                                       {"parents": [0], "ticks": 1, "mem": 0.5}, {"parents": [2], "ticks": 2, "mem": 0.5},
+                                                       {"parents": [0], "ticks": 1, "mem": 0.5}, {"parents": [4], "ticks": 1, "mem": 0.5}]},
+                 {"prio": 3, "ops": [{"parents": [], "ticks": 4, "mem": 0.5}]}]
+        arrivals = [[] for _ in range(30)]
+        arrivals[0] = [0]
+        arrivals[rng.randint(0, 2)].append(1)
+        params = {"duration": 30 / tps, "ticks_per_second": tps, "num_pools": 2, "cpus_per_pool": rng.choice([4, 16]), "ram_gb_per_pool": rng.choice([64, 100]),
+                  "multi_operator_containers": False, "allow_memory_overcommit": algo == "overbook"}
+        wl = {"pipes": pipes, "arrivals": arrivals, "tps": tps}
+        spec = {"params": params, "algo": algo, "workload": wl}
+        runs = [child(spec, h) for h in (0, 2, 7)]
+        ctx.coverage["evaluations"] += 3
+        ctx.sit("failed_and_newly_ready_operator_in_one_round")
+        for h, other in zip((2, 7), runs[1:]):
+            if other != runs[0]:
+                viol(ctx, "not-reproducible", f"a run in which an operator fails in the tick its sibling completes differs between PYTHONHASHSEED=0 and "
+                                              f"PYTHONHASHSEED={h} ({algo}, single-operator containers): {first_diff(runs[0], other)}",
+                     {"params": params, "algo": algo, "workload": wl})
+                return
+        ctx.coverage["distinct_nontrivial"] += 1
+
+
 def tie_runs(ctx, rng):
     """a dozen identical containers on an overcommitted pool that runs out of memory: all OOM scores are exactly equal, so whatever breaks the tie decides who
     is killed.  The same run in this process (twice), in a fresh interpreter, and in interpreters that ran other simulations first (process-global counters,
@@ -237,6 +267,7 @@ def run(ctx):
     seed_sweep(ctx, rng)
     settings_sweep(ctx, rng)
     dag_order_runs(ctx, rng)
+    failed_and_ready_together(ctx, rng)
     n = 4 if ctx.quick() else 24
     for i in range(n):
         algo = ["priority", "naive", "priority-pool", "overbook", "template"][i % 5]
